@@ -121,3 +121,69 @@ Theorem first_error_flow c acts a err :
   dead (na (nstep (nreach c acts) a)) = Some err \/ dead (nb (nstep (nreach c acts) a)) = Some err ->
   flow_class err = true.
 Proof. intros Hh He. eapply (NetInv_step _ a); eauto. now apply NetInv_reach. Qed.
+
+(** * C10: pairing *)
+(** the three situations of a connected port [p] of X (remote [q]) with respect to Y *)
+Definition paired_or (PY : list (N * pstate)) (Lxy Lyx : list frame) (p : N) (cX : conn) : Prop :=
+  (exists cY, lookup (remote cX) PY = Some (Connected cY) /\ remote cY = p) \/
+  (exists r pl, lookup (remote cX) PY = Some (Connecting r) /\ In (PortOpened (remote cX) p, pl) Lxy) \/
+  (tx_dropped cX = true /\ rx_dropped cX = true /\
+   cnt (m_sf p) Lyx + b2n (negb (rx_open cX)) = 1 /\ cnt (m_rf p) Lyx + b2n (rrx_dropped cX) = 1 /\
+   forall cY, lookup (remote cX) PY = Some (Connected cY) -> remote cY <> p).
+
+Lemma pairing_dir X Y L L' p cX :
+  Sys X Y L L' -> lookup p (ports (mx X)) = Some (Connected cX) -> paired_or (ports (mx Y)) L L' p cX.
+Proof.
+  intros (_ & _ & HC) Hl. pose proof (c_yx _ _ _ _ _ _ _ _ HC p) as Hp. unfold rx_clause in Hp. rewrite Hl in Hp.
+  destruct Hp as (_ & _ & _ & _ & Hr & _). unfold paired_or.
+  destruct (pstat (ports (mx Y)) L (remote cX) p) as [| |cY] eqn:Es.
+  - right. right. destruct (r_gone _ _ _ _ Hr eq_refl) as [G1 G2]. pose proof (r_sf _ _ _ _ Hr) as S1. pose proof (r_rf _ _ _ _ Hr) as S2.
+    cbn [txf rxf b2n] in S1, S2. repeat split; auto.
+    intros cY HY E. rewrite (pstat_live_intro _ _ _ _ _ HY E) in Es. discriminate.
+  - right. left. apply pstat_pend in Es as [(r & Hr') Hc]. apply cnt_pos_In in Hc as ([m pl] & Hin & Hm). cbn [fst] in Hm.
+    destruct m; try discriminate. cbn [m_pox] in Hm. apply andb_true_iff in Hm as [M1 M2]. apply N.eqb_eq in M1, M2. subst.
+    exists r, pl. auto.
+  - left. apply pstat_live in Es as [E1 E2]. eauto.
+Qed.
+
+Theorem pairing c acts :
+  let n := nreach c acts in
+  healthy n ->
+  (forall p cA, lookup p (ports (mx (na n))) = Some (Connected cA) -> paired_or (ports (mx (nb n))) (lab n) (lba n) p cA) /\
+  (forall q cB, lookup q (ports (mx (nb n))) = Some (Connected cB) -> paired_or (ports (mx (na n))) (lba n) (lab n) q cB) /\
+  inj_ok (ports (mx (na n))) /\ inj_ok (ports (mx (nb n))).
+Proof.
+  intros n Hh. pose proof (NetInv_reach c acts Hh) as HS. fold n in HS. unfold NetInv in HS. repeat split.
+  - intros p cA Hl. eapply pairing_dir; eauto.
+  - intros q cB Hl. eapply pairing_dir; [apply Sys_sym; exact HS|exact Hl].
+  - destruct HS as (_ & _ & HC). eapply c_injx; eauto.
+  - destruct HS as (_ & _ & HC). eapply c_injy; eauto.
+Qed.
+
+(** two ports that name each other are connected to no other port *)
+Corollary paired_exclusive c acts p q cA cB :
+  let n := nreach c acts in
+  healthy n ->
+  lookup p (ports (mx (na n))) = Some (Connected cA) -> remote cA = q ->
+  lookup q (ports (mx (nb n))) = Some (Connected cB) -> remote cB = p ->
+  (forall p' c', lookup p' (ports (mx (na n))) = Some (Connected c') -> remote c' = q -> p' = p) /\
+  (forall q' c', lookup q' (ports (mx (nb n))) = Some (Connected c') -> remote c' = p -> q' = q).
+Proof.
+  intros n Hh HA EA HB EB. destruct (pairing c acts Hh) as (_ & _ & IA & IB). fold n in IA, IB. split.
+  - intros p' c' H E. eapply IA; eauto. congruence.
+  - intros q' c' H E. eapply IB; eauto. congruence.
+Qed.
+
+(** * Both endpoints stay well-formed (no panic, allocator sound), with or without protocol errors *)
+Theorem WF_net c acts : WF (na (nreach c acts)) /\ WF (nb (nreach c acts)).
+Proof.
+  unfold nreach. induction acts as [|a acts IH] using rev_ind.
+  - split; apply WF_init.
+  - rewrite nrun_snoc. destruct IH as [Ha Hb]. destruct a as [[|] a|[|]]; cbn [nstep].
+    + destruct (is_recv a); [auto|]. cbn [na nb set RecordSet.set]. split; [now apply WF_stepf|exact Hb].
+    + destruct (is_recv a); [auto|]. cbn [na nb set RecordSet.set]. split; [exact Ha|now apply WF_stepf].
+    + destruct (lab _) as [|[m pl] l]; [auto|]. destruct (step_opt _ _) eqn:E; [|auto].
+      cbn [na nb set RecordSet.set]. split; [exact Ha|exact (WF_step _ _ _ Hb E)].
+    + destruct (lba _) as [|[m pl] l]; [auto|]. destruct (step_opt _ _) eqn:E; [|auto].
+      cbn [na nb set RecordSet.set]. split; [exact (WF_step _ _ _ Ha E)|exact Hb].
+Qed.
